@@ -64,6 +64,7 @@ def cases(draw, tier):
     # moved by whole cells
     if draw(st.integers(0, 5)) == 0:
         case["twin"] = [draw(st.integers(-3, 3)), draw(st.integers(-3, 3))]
+    case["gdata"] = draw(st.booleans())
     npts = draw(st.integers(1, 6))
     # point coordinates in eighths of a fine cell (exact squared
     # distances): on centres, edges, and several points close to the same
@@ -134,6 +135,13 @@ def oracle(case):
     if abs(case["ox"]) > 1000:
         labels.append("origin-far-from-zero")
     g = Grid("g", gnc, gnr, cellsize=C, xllcorner=gx, yllcorner=gy)
+    if case.get("gdata"):
+        # the grid the catchment is intersected with holds values of its
+        # own (a rainfall field, a mask)
+        g.data = (np.arange(gnr * gnc, dtype=np.float64).reshape(gnr, gnc)
+                  * 1.5 + 2.0)
+        labels.append("target-grid-holds-data")
+    g0 = np.asarray(g.data).copy()
     af = (csz / C) ** 2
 
     # model: strict / edge counts per coarse cell (dyadic arithmetic, exact)
@@ -222,6 +230,9 @@ def oracle(case):
             raise Violation(
                 f"area_grid corner ({ag.xllcorner}, {ag.yllcorner}) != "
                 f"parent cell corner ({x0}, {y0})")
+    if not np.array_equal(np.asarray(g.data), g0):
+        raise Violation("intersect changed the data of the grid it was "
+                        "given")
     partial = 0 < strict_total and (outside > 0 or closed_total < len(xy))
     if partial:
         labels.append("partial-overlap")
